@@ -183,9 +183,9 @@ def check (c):
     pf = np.array (observe.pattern (mf, nth = 9, nph = 8, th0 = 3.0, th1 = 87.0).gain)
     mxg = pg [..., 2].max ()
     for col, nm in ((2, 'total'), (0, 'vertical'), (1, 'horizontal')):
-        sel = (pg [..., col] > mxg - 45) | (pf [..., col] > mxg - 3.0103 - 45)
-        dd  = float (np.abs (pg [..., col] - 3.0103 - pf [..., col]) [sel].max ()) if sel.any () else 0.0
-        judge ('gain.' + nm, dd + 1e-300, 0.01, '%s gain over ground minus 3.0103 dB differs %.4f dB from the free-space pair' % (nm, dd))
+        # on the scale of the main beam (total gain): in a null the allowed current deviation is a large factor of a small field
+        dd, dcur = observe.gain_dev_beam_db (np.append (pg [..., col].ravel (), mxg), np.append (pf [..., col].ravel () + 3.0103, mxg), d)
+        judge ('gain.' + nm, dd + 1e-300, 0.01 + dcur + observe.gain_slack_db (mg, d), '%s gain over ground minus 3.0103 dB differs %.4f dB from the free-space pair' % (nm, dd))
     g0 = mg.geo [0]
     trivial = len (mg.geo) == 1 and kinds == ['b'] and abs (g0.p1 [0] - g0.p2 [0]) < 1e-12 and abs (g0.p1 [1] - g0.p2 [1]) < 1e-12
     sig = gen.signature (spec, mg, extra = ['feeds' + ''.join (sorted (kinds))])
